@@ -20,3 +20,15 @@ class TDefault(Task):
 
     def execute(self):
         pass
+
+
+class TDefault2(Task):
+    """two jobs of one class, both leaving `a` to its default: each instance must hold its own copy of the default
+    configuration (TypeConfig.__init__ clones defaults); a shared object would be sealed by the first submit, under
+    the first job's directory"""
+    y: Param[int] = 0
+    a: Param[DLeaf] = DLeaf(x=1)
+    out: Meta[Path] = field(default_factory=PathGenerator("out.txt"))
+
+    def execute(self):
+        pass
